@@ -198,4 +198,4 @@ Example table_example :
   rdlen s true [VNum 10; VName [[109;120]; [65]]] = Ok None /\
   (* compressed input: the exchange is "mx" + pointer to offset 1 *)
   parse_rdata pname_dec s [9;1;65;0;0;10;2;109;120;192;1] 4 11 = Ok [VNum 10; VName [[109;120]; [65]]].
-Proof. eexists. vm_compute. repeat split; reflexivity. Qed.
+Proof. exists (plain [U16; NameC true]). vm_compute. repeat split; reflexivity. Qed.
